@@ -174,6 +174,29 @@ namespace verif
 
     Verdict run_case(const uint8_t* data, size_t size, Report& rep)
     {
+        if (fnv1a(data, size, 0xc20) % 16 == 0)
+        {
+            // three threads encode, decode and handle credentials with different values at the same moment
+            rep.label("three-threads-at-once");
+            std::string f = on_threads(3, [&](int t) -> std::string {
+                for (int i = 0; i < 150; ++i)
+                {
+                    std::string in(size_t(1 + (i * 7 + t) % 40), char('a' + t));
+                    in[0] = char(i);
+                    std::string enc = Base64Encoder::EncodeString(in);
+                    Base64Decoder d(enc);
+                    auto v = d.Decode();
+                    if (enc != ref_encode(in) || std::string(reinterpret_cast<const char*>(v.data()), v.size()) != in)
+                        return std::string("thread ") + std::to_string(t) + ": " + std::to_string(in.size()) + " bytes did not survive encode and decode (\"" + enc + "\")";
+                    Pistache::Http::Header::Authorization a;
+                    a.setBasicUserPassword("user" + std::to_string(t), "pw:" + std::to_string(i));
+                    if (a.getBasicUser() != "user" + std::to_string(t) || a.getBasicPassword() != "pw:" + std::to_string(i))
+                        return std::string("thread ") + std::to_string(t) + ": credentials read back as " + a.getBasicUser() + " / " + a.getBasicPassword();
+                }
+                return "";
+            });
+            V_CHECK(f.empty(), "C20/concurrent-codecs", "three threads using Base64 and credentials at the same moment: " + f);
+        }
         {
             static bool judged = false;
             if (!judged)
